@@ -158,8 +158,18 @@ class NestedQueryPostprocessingTransformation(QueryPostprocessingTransformation)
     def __post_init__(self) -> None:
         from sigma.processing.pipeline import (
             ProcessingPipeline,
+            QueryPostprocessingItem,
         )  # TODO: move to top-level after restructuring code
 
+        # Loaded from a pipeline definition the items arrive here as dicts.
+        self.items = [
+            (
+                item
+                if isinstance(item, QueryPostprocessingItem)
+                else QueryPostprocessingItem.from_dict(item)
+            )
+            for item in self.items
+        ]
         self._nested_pipeline = ProcessingPipeline(postprocessing_items=self.items)
 
     @classmethod
